@@ -192,17 +192,29 @@ func (rn *runner) genStep() {
 		u = holders[r.Intn(len(holders))]
 		val := value(d.Cells[v], u)
 		var amt *big.Int
-		switch r.Intn(8) {
+		// the module's delegation can be absent although shares exist if the implementation is
+		// broken: never assume it
+		pool := big.NewInt(0)
+		if d.Cells[v].B != nil {
+			pool = d.Cells[v].B
+		}
+		switch r.Intn(11) {
 		case 0:
 			amt = new(big.Int).Set(val)
 		case 1:
 			amt = new(big.Int).Add(val, bi(1))
 		case 2:
 			amt = bi(1)
-		case 3:
-			amt = new(big.Int).Add(d.Cells[v].B, bi(int64(r.Intn(3))))
+		case 3: // the whole pooled delegation, or just above it
+			amt = new(big.Int).Add(pool, bi(int64(r.Intn(3))))
 		case 4:
 			amt = new(big.Int).Quo(val, bi(2))
+		case 8: // twice the sender's value
+			amt = new(big.Int).Mul(val, bi(2))
+		case 9: // the value plus a little dust
+			amt = new(big.Int).Add(val, bi(int64(2+r.Intn(4))))
+		case 10: // more than the value, less than the pool
+			amt = new(big.Int).Add(val, r.Big(new(big.Int).Add(new(big.Int).Sub(pool, val), bi(1))))
 		default:
 			amt = r.Big(new(big.Int).Add(val, bi(1)))
 		}
@@ -271,8 +283,15 @@ func (rn *runner) genStep() {
 			rn.do(op{Kind: k, U: u, V: -1, Amt: rn.amount(), Rcp: -3}, "gen:malformed")
 		case 6:
 			rn.do(op{Kind: kUndelegate, U: u, V: v, Amt: bi(1 + int64(r.Intn(3))), Rcp: -1}, "gen:malformed")
-		default: // a non-holder undelegating a tiny amount
-			rn.do(op{Kind: kUndelegate, U: funder, V: v, Amt: bi(1 + int64(r.Intn(2))), Rcp: -3}, "gen:nonholder")
+		default: // a non-holder undelegating a tiny amount, or a share of the pooled delegation
+			amt := bi(1 + int64(r.Intn(2)))
+			if d.Cells[v].B != nil && r.Chance(1, 2) {
+				amt = r.Big(new(big.Int).Add(d.Cells[v].B, bi(1)))
+				if amt.Sign() == 0 {
+					amt = bi(1)
+				}
+			}
+			rn.do(op{Kind: kUndelegate, U: funder, V: v, Amt: amt, Rcp: -3}, "gen:nonholder")
 		}
 	}
 }
